@@ -96,6 +96,17 @@ CHECKS = {
          "rejected.",
          "Diagnostic = stdout line with one of the error phrases used by print_error*/ad-hoc printfs; 'Warning' lines are "
          "not. Structural corruptions inside another block are only held to the consistency oracle.", "DESIGN.md 3/C12"),
+ "C13": ("hypothesis+nvserve",
+         "metamorphic option/type/file-name variation over the CLI + stateful in-process histories vs fresh process + naken_util asm sessions",
+         "Generated-input search with metamorphic and history oracles: (a) structured programs are run through the "
+         "sanitized CLI under 4..6 random configurations of {-l,-q,-dump_symbols,-dump_macros} x output type x output "
+         "name; decoded images must be identical and identical configurations byte-identical (S0 timestamp masked); (b) "
+         "a long-lived in-process worker assembles generated histories of 3..8 assemblies over 2..4 programs (repeats, "
+         "listing on/off, failing programs in between) and each result must equal a fresh process's; (c) listing "
+         "on/off pairs in one process; (d) naken_util sessions with several 'asm' blocks compared with the "
+         "block-by-block fresh assembly.",
+         "Trusted: format decoders in pyprops/formats.py. Input file name held constant (ELF embeds it).",
+         "DESIGN.md 3/C13"),
 }
 
 NOT_YET = "check not built yet (work in progress; see DESIGN.md section 3)"
